@@ -16,6 +16,7 @@ def drive_and_validate(run, cases, shards):
 
 def check(tier):
     run = Run("C06", tier)
+    run.skip_key = ['lo', 'hi', 'lo2', 'hi2', 'op', 'ext', 'form', 'pos', 'val']
     res = core.tlc("mc/MC_C06.tla", "mc/MC_C06.cfg", workers=8, coverage=True, timeout=1200)
     core.check_coverage(res)
     run.add_tlc(res, "IntWidth exhaustive: 53 boundary points x ext x 6 positions x form x assigned value")
